@@ -220,12 +220,33 @@ def gen_meta(rng):
     return "meta %s %d %s %s" % (enc, adjust, ",".join(script), ",".join(map(str, cuts)) or "-")
 
 
+COMPAT_LABELS = ["utf-8", "windows-1252", "iso-8859-7", "gbk", "shift_jis", "big5", "euc-jp", "euc-kr", "gb18030",
+                 "koi8-r", "x-user-defined", "macintosh", "utf-16le", "utf-16be", "utf-16", "iso-2022-jp",
+                 "csiso2022jp", "unicode", "ucs-2", "replacement", "bogus", "iso-2022-kr", "hz-gb-2312"]
+
+
+def gen_loc(rng):
+    enc = rng.choice(ENCODINGS)
+    text = bytes(b for b in rand_text(rng, enc, rng.randrange(1, 30)) if b not in (0x3C, 0x26, 0x00, 0x0D))
+    if not text:
+        text = b"a"
+    n = len(text) + 7
+    cuts = rand_cuts(rng, n)
+    if rng.random() < 0.5 and len(text) > 1:
+        cuts = [3 + rng.randrange(1, len(text))]
+    return "loc %s %s %s" % (enc, hexs(text), ",".join(map(str, cuts)) or "-")
+
+
 def gen(rng, n, tier, pid):
     out = []
     for i in range(n):
         r = rng.random()
         if i == n // 2 and n >= 500:
             out.append(gen_tenc(rng, big=True))
+        elif r < 0.01:
+            out.append("compat " + rng.choice(COMPAT_LABELS))
+        elif r < 0.08:
+            out.append(gen_loc(rng))
         elif r < 0.5:
             out.append(gen_dec(rng))
         elif r < 0.65:
